@@ -63,10 +63,28 @@ def run(m: Model, r: Report, tier: str) -> None:
     norm = [s for s in tr.body if isinstance(s, ast.Assign) and ast.unparse(s.targets[0]) == EC]
     r.check(len(norm) == 1 and ast.unparse(norm[0].value) == "await self.run()", "R1", f"{ep.qualname}#normal",
             "the normal path does not take run()'s return value as exit code", loc=ep.loc)
-    handlers = {ast.unparse(h.type) if h.type is not None else "<bare>": h for h in tr.handlers}
+    def type_names(h: ast.ExceptHandler) -> list[str]:
+        if h.type is None:
+            return ["<bare>"]
+        elts = h.type.elts if isinstance(h.type, ast.Tuple) else [h.type]
+        return [ast.unparse(e).split(".")[-1] for e in elts]
+    handlers = {}
+    for h in tr.handlers:
+        names_ = type_names(h)
+        # the handler is filed under its leading documented kind; additional types of the same handler are kept in handler_types
+        handlers[next((n_ for n_ in names_ if n_ in ("KeyboardInterrupt", "SystemExit", "Exception")), names_[0])] = h
+    handler_types = {k: type_names(h) for k, h in handlers.items()}
     order = list(handlers)
     r.check(order[-1:] == ["Exception"] and set(order) == {"KeyboardInterrupt", "SystemExit", "Exception"}, "R1",
             f"{ep.qualname}#handlers", f"handlers are {order}; expected KeyboardInterrupt, SystemExit and a final Exception handler", loc=ep.loc)
+    # how Ctrl-C arrives: the command line starts entry_point() with asyncio.run(), whose SIGINT handler cancels the main task - inside entry_point the
+    # interrupt is an asyncio.CancelledError (a BaseException), the KeyboardInterrupt is only raised by asyncio.run() after the task has ended
+    cli = m.module("gallia.cli.gallia")
+    via_asyncio_run = any(isinstance(c_, ast.Call) and ast.unparse(c_.func) == "asyncio.run" and "entry_point()" in ast.unparse(c_) for c_ in ast.walk(cli.tree))
+    intr = handler_types.get("KeyboardInterrupt", [])
+    r.check(not via_asyncio_run or any(t_ in ("CancelledError", "BaseException") for t_ in intr), "R1", f"{ep.qualname}#interrupt-under-asyncio",
+            f"the interrupt handler catches {intr}: under asyncio.run() Ctrl-C cancels the task, the CancelledError passes every handler, the finally block records the "
+            "initial exit code 0 in META.json and the database, the post-hook does not run, and only then does asyncio.run() raise KeyboardInterrupt", loc=ep.loc)
 
     def assigned_codes(stmts: list[ast.stmt]) -> list[ast.expr]:
         out = []
@@ -210,6 +228,13 @@ def run(m: Model, r: Report, tier: str) -> None:
     r.check((via_shell and checked and any("CalledProcessError" in t for t in htypes)) or catches_os, "R3", f"{rh.qualname}#hook-cannot-raise",
             f"the hook is started with shell={ast.unparse(kw['shell']) if 'shell' in kw else 'False'} and only {htypes} is handled: without a shell a missing / non-executable "
             "script raises FileNotFoundError / PermissionError out of run_hook (pre-hook: the run never starts and nothing is recorded; post-hook: entry_point raises)", loc=rh.loc)
+    # the hook's output is decoded (text=True): bytes that are no valid text in the locale's encoding must not raise out of run_hook
+    decodes = "text" in kw and ast.unparse(kw["text"]) == "True" or "universal_newlines" in kw or "encoding" in kw
+    tolerant = "errors" in kw and isinstance(kw["errors"], ast.Constant) and kw["errors"].value in ("replace", "backslashreplace", "ignore", "surrogateescape", "namereplace", "xmlcharrefreplace")
+    catches_dec = any(any(k in t for k in ("UnicodeDecodeError", "UnicodeError", "ValueError", "Exception")) for t in htypes)
+    r.check(not decodes or tolerant or catches_dec, "R3", f"{rh.qualname}#hook-output-decoding",
+            "the hook's stdout / stderr are decoded strictly (text=True without errors=...): a hook that prints bytes which are no valid text (a message in another encoding) "
+            "raises UnicodeDecodeError out of run_hook - the pre-hook then aborts the run before it starts, the post-hook makes entry_point raise", loc=rh.loc)
     hook_calls = [n for n in walk_no_nested(ep.node) if isinstance(n, ast.Call) and ast.unparse(n.func) == "self.run_hook"]
     as_stmt = [s for s in ast.walk(ep.node) if isinstance(s, ast.Expr) and s.value in hook_calls]
     r.check(len(hook_calls) == 2 and len(as_stmt) == 2, "R3", f"{ep.qualname}#hook-result-unused",
